@@ -70,6 +70,8 @@ structure AInv (a : ASt) (cs : CSt) : Prop where
   len : a.nC ≤ a.heap.length
   /-- every stored event's attributes live in an array that was allocated by the NewEventConfig call that made it -/
   fresh : ∀ e ∈ a.events.queue, ∀ s, e.attrs = some s → a.nC ≤ s.arr ∧ s.arr < a.heap.length
+  /-- every stored link's attributes live in the array `slices.Clone` allocated for it -/
+  freshL : ∀ l ∈ a.links.queue, ∀ s, l.attrs = some s → a.nC ≤ s.arr ∧ s.arr < a.heap.length
 
 private theorem segOpt_ref (a : ASt) (segs : List Seg) :
     ∀ o ∈ segs.map (segOpt a), ∀ s, o = .ref s → s.arr < a.nC := by
@@ -77,7 +79,8 @@ private theorem segOpt_ref (a : ASt) (segs : List Seg) :
   obtain ⟨sg, _, rfl⟩ := List.mem_map.mp ho
   unfold segOpt at hs
   split at hs
-  · cases hs; assumption
+  · rename_i hb
+    cases hs; exact hb
   · cases hs
 
 private theorem segOpt_read (a : ASt) (segs : List Seg) (_hl : a.nC ≤ a.heap.length) :
@@ -91,9 +94,24 @@ private theorem segOpt_read (a : ASt) (segs : List Seg) (_hl : a.nC ≤ a.heap.l
     unfold segOpt readSeg
     split
     · rename_i hb
-      simp only [AOpt.read, Heap.read, getD_take_of_lt a.heap a.nC sg.b hb]
+      simp only [AOpt.read, segSlice_read, readSeg, getD_take_of_lt a.heap a.nC sg.b hb]
     · rename_i hb
       simp only [AOpt.read, getD_take_of_ge a.heap a.nC sg.b (by omega), readArr, List.drop_nil, List.take_nil]
+
+private theorem derefs_of_prefix (a : ASt) (h' : Heap) (hp : h'.take a.heap.length = a.heap)
+    (fe : ∀ e ∈ a.events.queue, ∀ s, e.attrs = some s → a.nC ≤ s.arr ∧ s.arr < a.heap.length)
+    (fl : ∀ l ∈ a.links.queue, ∀ s, l.attrs = some s → a.nC ≤ s.arr ∧ s.arr < a.heap.length) :
+    a.events.queue.map (derefEvent h') = a.events.queue.map (derefEvent a.heap) ∧
+    a.links.queue.map (derefLink h') = a.links.queue.map (derefLink a.heap) := by
+  constructor
+  · apply List.map_congr_left
+    intro e he
+    unfold derefEvent
+    rw [readO_of_prefix a.heap h' hp e.attrs (fun s hs => (fe e he s hs).2)]
+  · apply List.map_congr_left
+    intro l hl
+    unfold derefLink
+    rw [readO_of_prefix a.heap h' hp l.attrs (fun s hs => (fl l hl s hs).2)]
 
 /-- addEvent on a heap `h1` that extends the state's heap (RecordError has allocated in between) -/
 private theorem aAddEvent_sim (grow : Nat → Nat) (lim : Limits) (a : ASt) (sp : St) (bf : Bufs) (hi : AInv a ⟨sp, bf⟩)
@@ -102,7 +120,7 @@ private theorem aAddEvent_sim (grow : Nat → Nat) (lim : Limits) (a : ASt) (sp 
     AInv { a with heap := (aAddEvent grow lim h1 a.events name opts).1,
                   events := (aAddEvent grow lim h1 a.events name opts).2 }
       ⟨{ sp with events := sp.events.add lim.eventCount (mkEvent lim name (opts.flatMap (AOpt.read a.heap))) }, bf⟩ := by
-  obtain ⟨hview, hbufs, hlen, hfresh⟩ := hi
+  obtain ⟨hview, hbufs, hlen, hfresh, hfreshL⟩ := hi
   simp only at hview hbufs
   subst hview
   have hl1 := length_le_of_prefix a.heap h1 hp1
@@ -119,18 +137,10 @@ private theorem aAddEvent_sim (grow : Nat → Nat) (lim : Limits) (a : ASt) (sp 
   have hp2 : (newEventConfig grow h1 opts).1.take a.heap.length = a.heap :=
     prefix_trans a.heap h1 _ hp1 hg.1
   have hl2 := length_le_of_prefix a.heap _ hp2
-  have hold : a.events.queue.map (derefEvent (newEventConfig grow h1 opts).1) = a.events.queue.map (derefEvent a.heap) := by
-    apply List.map_congr_left
-    intro e he
-    unfold derefEvent
-    cases hes : e.attrs with
-    | none => rfl
-    | some s =>
-      have := hfresh e he s hes
-      simp only [Heap.readO, read_of_prefix a.heap _ hp2 s this.2]
-  refine ⟨?_, ?_, ?_, ?_⟩
+  obtain ⟨hold, holdL⟩ := derefs_of_prefix a _ hp2 hfresh hfreshL
+  refine ⟨?_, ?_, ?_, ?_, ?_⟩
   · simp only [aview, aAddEvent]
-    rw [EQ.add_map (derefEvent (newEventConfig grow h1 opts).1), hold]
+    rw [EQ.add_map (derefEvent (newEventConfig grow h1 opts).1), hold, holdL]
     simp only [derefEvent, hcr, hcd, mkEvent]
   · simp only [aAddEvent]
     have : (newEventConfig grow h1 opts).1.take a.nC = ((newEventConfig grow h1 opts).1.take a.heap.length).take a.nC := by
@@ -155,6 +165,10 @@ private theorem aAddEvent_sim (grow : Nat → Nat) (lim : Limits) (a : ASt) (sp 
       exact ⟨by omega, hlt⟩
     · have := hfresh e he s hs
       exact ⟨this.1, by omega⟩
+  · intro l hl s hs
+    simp only [aAddEvent] at hl ⊢
+    have := hfreshL l hl s hs
+    exact ⟨this.1, by omega⟩
 
 private theorem aview_ended (a : ASt) : (aview a).ended = a.span.ended := rfl
 
@@ -201,6 +215,62 @@ private theorem aRecordError_sim (grow : Nat → Nat) (lim : Limits) (a : ASt) (
       have := aAddEvent_sim grow lim a sp bf hi _ hp1 excName _ ho'
       simpa [errorAttrs, AOpt.read] using this
 
+private theorem aLink_sim (grow : Nat → Nat) (lim : Limits) (a : ASt) (cs : CSt) (hi : AInv a cs) (sc : SC)
+    (arg : Heap × Option Slice) (attrs : List KV) (hp : arg.1.take a.heap.length = a.heap)
+    (hr : arg.1.readO arg.2 = attrs) (hl : sliceLen arg.2 = attrs.length) :
+    AInv (aLink grow lim a sc arg) { cs with span := step lim cs.span (.addLink sc attrs) } := by
+  rcases cs with ⟨sp, bf⟩
+  have hv : aview a = sp := hi.view
+  have he : sp.ended = a.span.ended := by rw [← hv]; rfl
+  have hc : (!sc.isValid && sliceLen arg.2 == 0 && sc.ts == 0) = (!sc.isValid && attrs.isEmpty && sc.ts == 0) := by
+    rw [hl]; cases attrs <;> simp
+  unfold aLink
+  rw [hc]
+  by_cases hk : (!sc.isValid && attrs.isEmpty && sc.ts == 0) = true
+  · simp only [hk, if_true]
+    rw [step_addLink_skip lim sp sc attrs hk]; exact hi
+  · simp only [hk, if_false, Bool.false_eq_true]
+    by_cases hend : a.span.ended = true
+    · simp only [hend, if_true]
+      rw [step_of_ended lim sp _ (he.trans hend)]; exact hi
+    · simp only [hend, if_false, Bool.false_eq_true]
+      rw [step_addLink_recording lim sp sc attrs hk (by rw [he]; simpa using hend)]
+      obtain ⟨hview, hbufs, hlen, hfresh, hfreshL⟩ := hi
+      simp only at hview hbufs
+      subst hview
+      obtain ⟨hcr, hcd⟩ := capSlice_read lim.perLink arg.1 arg.2 (by rw [hl, hr])
+      rw [hr] at hcr hcd
+      obtain ⟨hp2, hrd, hfr, hle⟩ := goClone_spec grow a.heap arg.1 hp (capSlice lim.perLink arg.2).1
+      have hl1 := length_le_of_prefix a.heap arg.1 hp
+      obtain ⟨hold, holdL⟩ := derefs_of_prefix a _ hp2 hfresh hfreshL
+      refine ⟨?_, ?_, ?_, ?_, ?_⟩
+      · simp only [aview]
+        rw [EQ.add_map (derefLink (goClone grow arg.1 (capSlice lim.perLink arg.2).1).1), hold, holdL]
+        simp only [derefLink, hrd, hcr, hcd, mkLink]
+      · simp only
+        have : (goClone grow arg.1 (capSlice lim.perLink arg.2).1).1.take a.nC =
+            ((goClone grow arg.1 (capSlice lim.perLink arg.2).1).1.take a.heap.length).take a.nC := by
+          rw [List.take_take]; congr 1; omega
+        rw [this, hp2]; exact hbufs
+      · simp only; omega
+      · intro e hm s hs
+        have := hfresh e hm s hs
+        exact ⟨this.1, by simp only; omega⟩
+      · intro l hm s hs
+        simp only at hm ⊢
+        rcases EQ.mem_add _ _ _ _ hm with rfl | hm
+        · have := hfr s hs
+          exact ⟨by omega, this.2⟩
+        · have := hfreshL l hm s hs
+          exact ⟨this.1, by omega⟩
+
+private theorem aLink_nC (grow : Nat → Nat) (lim : Limits) (a : ASt) (sc : SC) (arg : Heap × Option Slice) :
+    (aLink grow lim a sc arg).nC = a.nC := by
+  unfold aLink
+  split
+  · rfl
+  · split <;> rfl
+
 private theorem aEvent_nC (grow : Nat → Nat) (lim : Limits) (a : ASt) (name : Bytes) (opts : List AOpt) :
     (aEvent grow lim a name opts).nC = a.nC := by
   unfold aEvent; split <;> rfl
@@ -221,10 +291,8 @@ theorem astep_sim (grow : Nat → Nat) (lim : Limits) (a : ASt) (cs : CSt) (c : 
     simp only [astep, cstep]
     by_cases hb : b < a.nC
     · simp only [hb, if_true, and_true]
-      refine ⟨hi.view ▸ ?_, ?_, ?_, ?_⟩
-      · -- stored events live in arrays ≥ nC: a write to a caller's array is not seen through them
-        simp only [aview]
-        congr 2
+      have hE : a.events.queue.map (derefEvent (writeBuf a.heap b off kvs)) = a.events.queue.map (derefEvent a.heap) := by
+        -- stored events live in arrays ≥ nC: a write to a caller's array is not seen through them
         apply List.map_congr_left
         intro e he
         unfold derefEvent
@@ -233,14 +301,28 @@ theorem astep_sim (grow : Nat → Nat) (lim : Limits) (a : ASt) (cs : CSt) (c : 
         | some s =>
           have := hi.fresh e he s hes
           simp only [Heap.readO, Heap.read, writeBuf, getD_modify_ne a.heap _ b s.arr (by omega)]
+      have hL : a.links.queue.map (derefLink (writeBuf a.heap b off kvs)) = a.links.queue.map (derefLink a.heap) := by
+        apply List.map_congr_left
+        intro l hl
+        unfold derefLink
+        cases hes : l.attrs with
+        | none => rfl
+        | some s =>
+          have := hi.freshL l hl s hes
+          simp only [Heap.readO, Heap.read, writeBuf, getD_modify_ne a.heap _ b s.arr (by omega)]
+      refine ⟨hi.view ▸ ?_, ?_, ?_, ?_, ?_⟩
+      · simp only [aview, hE, hL]
       · simp only [writeBuf]
         rw [take_modify_of_lt _ a.heap b a.nC hb, hi.bufs]
       · simp only [writeBuf, List.length_modify]; exact hi.len
       · intro e he s hs
         simp only [writeBuf, List.length_modify]
         exact hi.fresh e he s hs
+      · intro l hl s hs
+        simp only [writeBuf, List.length_modify]
+        exact hi.freshL l hl s hs
     · simp only [hb, if_false, and_true]
-      refine ⟨hi.view, ?_, hi.len, hi.fresh⟩
+      refine ⟨hi.view, ?_, hi.len, hi.fresh, hi.freshL⟩
       simp only [writeBuf]
       rw [modify_of_length_le _ cs.bufs b (by rw [← hi.bufs, List.length_take]; have := hi.len; omega)]
       exact hi.bufs
@@ -256,24 +338,36 @@ theorem astep_sim (grow : Nat → Nat) (lim : Limits) (a : ASt) (cs : CSt) (c : 
     rwa [segOpt_read a segs hi.len, hi.bufs] at this
   | setAttrsFrom segs =>
     simp only [astep, cstep, resolve, and_true]
-    refine ⟨?_, hi.bufs, hi.len, hi.fresh⟩
+    refine ⟨?_, hi.bufs, hi.len, hi.fresh, hi.freshL⟩
     simp only [aview, hi.bufs]
     rw [← hi.view, aview]
-    exact (step_events_irrel lim a.span _ _ (fun _ _ h => by cases h) (fun _ _ h => by cases h)).symm
+    exact (step_queues_irrel lim a.span _ _ _ (fun _ _ h => by cases h) (fun _ _ h => by cases h)
+      (fun _ _ h => by cases h)).symm
   | addLinkFrom sc seg =>
-    simp only [astep, cstep, resolve, and_true]
-    refine ⟨?_, hi.bufs, hi.len, hi.fresh⟩
-    simp only [aview, hi.bufs]
-    rw [← hi.view, aview]
-    exact (step_events_irrel lim a.span _ _ (fun _ _ h => by cases h) (fun _ _ h => by cases h)).symm
+    simp only [astep, cstep, resolve]
+    refine ⟨?_, aLink_nC grow lim a _ _⟩
+    by_cases hb : seg.b < a.nC
+    · simp only [hb, if_true]
+      have := aLink_sim grow lim a cs hi sc (a.heap, some (segSlice a.heap seg)) (readSeg a.heap seg)
+        List.take_length (segSlice_read a.heap seg) (segSlice_len a.heap seg)
+      have hrs : readSeg cs.bufs seg = readSeg a.heap seg := by
+        rw [← hi.bufs]; simp only [readSeg, getD_take_of_lt a.heap a.nC seg.b hb]
+      rw [hrs]; exact this
+    · simp only [hb, if_false]
+      have := aLink_sim grow lim a cs hi sc (a.heap, none) [] List.take_length rfl rfl
+      have hrs : readSeg cs.bufs seg = [] := by
+        rw [← hi.bufs]
+        simp only [readSeg, getD_take_of_ge a.heap a.nC seg.b (by omega), readArr, List.drop_nil, List.take_nil]
+      rw [hrs]; exact this
   | plain op =>
     have hother : (∀ n at_, op ≠ .addEvent n at_) → (∀ er at_, op ≠ .recordError er at_) →
+        (∀ sc at_, op ≠ .addLink sc at_) →
         AInv { a with span := step lim a.span op } { cs with span := step lim cs.span op } := by
-      intro h1 h2
-      refine ⟨?_, hi.bufs, hi.len, hi.fresh⟩
+      intro h1 h2 h3
+      refine ⟨?_, hi.bufs, hi.len, hi.fresh, hi.freshL⟩
       simp only [aview]
       rw [← hi.view, aview]
-      exact (step_events_irrel lim a.span _ op h1 h2).symm
+      exact (step_queues_irrel lim a.span _ _ op h1 h2 h3).symm
     cases op with
     | addEvent name attrs =>
       simp only [astep, cstep, resolve]
@@ -285,20 +379,24 @@ theorem astep_sim (grow : Nat → Nat) (lim : Limits) (a : ASt) (cs : CSt) (c : 
       refine ⟨?_, aRecordError_nC grow lim a _ _⟩
       have := aRecordError_sim grow lim a cs hi err [.lit attrs] (by intro o ho s hs; simp at ho; subst ho; cases hs)
       simpa [AOpt.read] using this
-    | setAttrs kvs => exact ⟨by simpa [astep, cstep, resolve] using hother (fun _ _ h => by cases h) (fun _ _ h => by cases h), rfl⟩
-    | addLink sc at_ => exact ⟨by simpa [astep, cstep, resolve] using hother (fun _ _ h => by cases h) (fun _ _ h => by cases h), rfl⟩
-    | setStatus cd d => exact ⟨by simpa [astep, cstep, resolve] using hother (fun _ _ h => by cases h) (fun _ _ h => by cases h), rfl⟩
-    | setName n => exact ⟨by simpa [astep, cstep, resolve] using hother (fun _ _ h => by cases h) (fun _ _ h => by cases h), rfl⟩
-    | end_ => exact ⟨by simpa [astep, cstep, resolve] using hother (fun _ _ h => by cases h) (fun _ _ h => by cases h), rfl⟩
+    | setAttrs kvs => exact ⟨by simpa [astep, cstep, resolve] using hother (fun _ _ h => by cases h) (fun _ _ h => by cases h) (fun _ _ h => by cases h), rfl⟩
+    | addLink sc at_ =>
+      simp only [astep, cstep, resolve]
+      obtain ⟨h1, h2, h3⟩ := litSlice_spec a.heap at_
+      exact ⟨aLink_sim grow lim a cs hi sc _ at_ h1 h2 h3, aLink_nC grow lim a _ _⟩
+    | setStatus cd d => exact ⟨by simpa [astep, cstep, resolve] using hother (fun _ _ h => by cases h) (fun _ _ h => by cases h) (fun _ _ h => by cases h), rfl⟩
+    | setName n => exact ⟨by simpa [astep, cstep, resolve] using hother (fun _ _ h => by cases h) (fun _ _ h => by cases h) (fun _ _ h => by cases h), rfl⟩
+    | end_ => exact ⟨by simpa [astep, cstep, resolve] using hother (fun _ _ h => by cases h) (fun _ _ h => by cases h) (fun _ _ h => by cases h), rfl⟩
 
 theorem ainit_inv (name : Bytes) (caps : List Nat) : AInv (ainit name caps) (cinit name caps) :=
   ⟨rfl, by simp only [ainit, cinit, initBufs]; exact List.take_of_length_le (by simp), by simp [ainit, initBufs],
-    by intro e he; simp [ainit] at he⟩
+    by intro e he; simp [ainit] at he, by intro l hl; simp [ainit] at hl⟩
 
 /-- **The option / config code refines value semantics.** For EVERY growth policy of `append`, all limits and every
 caller script, the heap machine — `WithAttributes` options that ARE the caller's slices, `NewEventConfig` folding
 `append` over them from the nil slice, RecordError's extra option and extra `NewEventConfig`, addEvent's
-`e.Attributes[:limit]`, events stored as slice headers and READ AFTER the caller's last write — shows exactly the
+`e.Attributes[:limit]`, AddLink's `[:limit]` then `slices.Clone` (F44 repair), events and links stored as slice headers
+and READ AFTER the caller's last write — shows exactly the
 span of value semantics, and the caller's arrays hold exactly the caller's own writes: no stored event shares an
 array with the caller or with another event's later `append`, and nothing is appended into a caller's spare capacity. -/
 theorem heap_machine_refines_values (grow : Nat → Nat) (lim : Limits) (name : Bytes) (caps : List Nat) (cops : List COp) :
@@ -354,6 +452,18 @@ theorem store_variant_is_not_value_semantics :
     good.1.take 1 = h0 ∧ bad.1.take 1 ≠ h0 ∧
     Heap.readO (writeBuf good.1 0 0 [⟨[0x7a], .int 9⟩]) good.2 = Heap.readO good.1 good.2 ∧
     Heap.readO (writeBuf bad.1 0 0 [⟨[0x7a], .int 9⟩]) bad.2 ≠ Heap.readO bad.1 bad.2 := by
+  decide
+
+/-- F44 (repaired in /repo 48fa451): AddLink WITHOUT `slices.Clone` (`aLinkShared`) is not value semantics — the
+recorded link follows the caller's later write to the array it passed as Link.Attributes; with the clone it does not. -/
+theorem shared_link_variant_is_not_value_semantics :
+    let a0 := ainit [0x6e] [2]
+    let a1 : ASt := { a0 with heap := writeBuf a0.heap 0 0 [⟨[0x61], .int 1⟩, ⟨[0x62], .int 2⟩] }
+    let lim : Limits := ⟨-1, -1, -1, -1, -1, -1⟩
+    let good := aLink id lim a1 ⟨1, 1, 0⟩ (a1.heap, some (segSlice a1.heap ⟨0, 0, 2⟩))
+    let bad := aLinkShared lim a1 ⟨1, 1, 0⟩ (a1.heap, some (segSlice a1.heap ⟨0, 0, 2⟩))
+    let w : ASt → ASt := fun a => { a with heap := writeBuf a.heap 0 0 [⟨[0x7a], .int 9⟩] }
+    (aview (w good)).links = (aview good).links ∧ (aview (w bad)).links ≠ (aview bad).links := by
   decide
 
 end Otel.C04
